@@ -3,4 +3,5 @@
 EXTENDS Integers, Sequences
 KF_C13(o, why) == "NEW"
 KF_C14(o, r, why) == "NEW"
+KF_C02(o) == "NEW"
 ==============================================================================
